@@ -868,6 +868,61 @@ impl Runtime for Sched {
         }
     }
 
+    fn cond_notify_one(&self, cv: usize) {
+        let me = tid();
+        if me == NONE || is_unwinding() {
+            return;
+        }
+        let _u = Untrack::new();
+        if me == SEQ {
+            return;
+        }
+        self.managed_point(me, PointKind::Normal, "notify_one", cv);
+        let mut g = self.lock();
+        if g.mode != Mode::Running {
+            return;
+        }
+        // which waiter wakes up is the environment's choice: a free choice
+        // point over the threads waiting on this condition variable
+        let waiters: Vec<usize> = (0..g.n)
+            .filter(|&i| matches!(g.th[i].block, Block::Cond(c, _) if c == cv))
+            .collect();
+        if waiters.is_empty() {
+            return;
+        }
+        let pick = if waiters.len() == 1 || g.frozen {
+            0
+        } else {
+            let idx = g.choices.len();
+            let c = if idx < g.prefix.len() {
+                let c = g.prefix[idx] as usize;
+                let en = g.expect_n[idx] as usize;
+                if c >= waiters.len() || (en != 0 && en != waiters.len()) {
+                    g.status.get_or_insert(Status::Diverged(format!(
+                        "choice point {}: replay wants waiter {} of {}, found {} waiters",
+                        idx, c, en, waiters.len()
+                    )));
+                    self.begin_abort(me, g, PointKind::Normal);
+                    return;
+                }
+                c
+            } else {
+                0
+            };
+            g.choices.push(ChoicePoint {
+                n: waiters.len() as u8,
+                chosen: c as u8,
+                cost_mask: 0,
+                at_yield: false,
+            });
+            c
+        };
+        let w = waiters[pick];
+        if let Block::Cond(_, m) = g.th[w].block {
+            g.th[w].block = Block::Mutex(m);
+        }
+    }
+
     fn yield_now(&self) {
         let me = tid();
         if me == NONE || is_unwinding() {
